@@ -82,10 +82,10 @@ TriviaMeansNoBrackets == (pos > Len(text) /\ sc.trivia) => (sc.stack = <<>> /\ s
 
 \* ----------------------------------------------------------------- mode G
 CONSTANTS ShardK, ShardN
-ExportAll == LET ts == SetToSeq(SeqsUpTo(MaxLen))
+ExportAll(x) == LET ts == SetToSeq(SeqsUpTo(MaxLen))
                  idx == SelectSeq([i \in 1..Len(ts) |-> i], LAMBDA i : i % ShardN = ShardK)
              IN ndJsonSerialize(IOEnv.OUT, [j \in 1..Len(idx) |-> [text |-> ts[idx[j]], verdict |-> Verdict(ts[idx[j]]), trivia |-> Trivia(ts[idx[j]])]])
 \* verdicts for texts handed in (generated programs and their mutations, as class sequences)
-ExportGiven == LET cs == ndJsonDeserialize(IOEnv.IN) IN
+ExportGiven(x) == LET cs == ndJsonDeserialize(IOEnv.IN) IN
                ndJsonSerialize(IOEnv.OUT, [i \in 1..Len(cs) |-> [id |-> cs[i].id, verdict |-> Verdict(cs[i].cls), trivia |-> Trivia(cs[i].cls)]])
 =============================================================================
